@@ -525,23 +525,22 @@ def rule_strides(ctx) -> None:
     ctx.chk.decide(cex is None, "C20.reverse_bytes_in_longs", fn.qual,
                    "a length that is not a multiple of 4 is rejected; otherwise the bytes of every 4-byte word are reversed, words stay in place (lengths 0..17)",
                    f"{cex[0]} bytes: {cex[1]} {cex[2]}" if cex else "", "partition into longs, each reversed", A.loc(MISC, fn.node))
-    # swap_bytes: the two mirrored stride-2 slices are exchanged
+    # swap_bytes: evaluated on every even length 0..12 - neighbouring bytes exchanged, nothing else moved
     fn = ctx.func(MISC, "swap_bytes")
-    fold = lambda e: ctx.prog.fold(e, fn.module)  # noqa: E731
-    sw = [n for n in A.walk_no_nested(fn.node) if isinstance(n, ast.Assign) and isinstance(n.targets[0], ast.Tuple) and isinstance(n.value, ast.Tuple)]
-    if len(sw) != 1:
-        raise AnalysisError("C20.swap_bytes: tuple-swap statement not found")
-    lhs = [norm(x) for x in sw[0].targets[0].elts]
-    rhs = [norm(x) for x in sw[0].value.elts]
-
-    def sl(e: ast.expr):
-        if isinstance(e, ast.Subscript) and isinstance(e.slice, ast.Slice):
-            s = e.slice
-            return (fold(s.lower) if s.lower else 0, None if s.upper is None else fold(s.upper), fold(s.step) if s.step else 1)
-        return None
-    shapes = sorted(filter(None, (sl(x) for x in sw[0].targets[0].elts)))
-    ctx.chk.decide(len(lhs) == 2 and lhs == rhs[::-1] and shapes == [(0, None, 2), (1, None, 2)], "C20.swap_bytes", fn.qual,
-                   "even and odd stride-2 slices are exchanged", norm(sw[0]), "a[0::2], a[1::2] = a[1::2], a[0::2]", A.loc(MISC, sw[0]))
+    par = fn.node.args.args[0].arg
+    cex = None
+    for L in range(0, 13, 2):
+        data = bytes(range(1, L + 1))
+        try:
+            out = ordereval.Evaluator({par: data}, ctx.fold_sym(fn), opaque_return=False).run(A.body_of(fn.node))
+        except ordereval.Unsupported as ex:
+            raise AnalysisError(f"C20.swap_bytes: left the fragment: {ex}")
+        want = bytes(data[i ^ 1] for i in range(L))
+        if not (out.kind == "return" and isinstance(out.value, (bytes, bytearray)) and bytes(out.value) == want) and cex is None:
+            cex = (L, out.kind, bytes(out.value).hex() if isinstance(out.value, (bytes, bytearray)) else out.value)
+    ctx.chk.exhaustive_rules.add("C20.swap_bytes")
+    ctx.chk.decide(cex is None, "C20.swap_bytes", fn.qual, "byte 2k and byte 2k+1 are exchanged for every k (even lengths 0..12)",
+                   f"{cex[0]} bytes: {cex[1]} {cex[2]}" if cex else "", "b'abcd' -> b'badc'", A.loc(MISC, fn.node))
     # split_data: partition
     fn = ctx.func(MISC, "split_data")
     check_partition(ctx, "C20.split_data.partition", fn, "data", "size")
@@ -604,11 +603,29 @@ def rule_bcd(ctx) -> None:
                    f"parse base {base}, format specs {specs}, order {order}", "int(text, 16) <-> :X for major.minor.service", A.loc(SBMISC, st.node))
     calls_check = bool(A.calls_in(nf.node, "_check_number"))
     ctx.chk.decide(calls_check, "C20.bcd.parse-validates", nf.qual, "_num_from_str validates through _check_number", "no _check_number call", "", A.loc(SBMISC, nf.node))
-    body = A.body_of(nf.node)
-    guard_decide(ctx, "C20.bcd.text-length", nf, ["L"],
-                 lambda e: ("raise", None) if (e["L"] > 4) else ("fall", None), values={"L": [0, 1, 3, 4, 5, 6]},
-                 sym_factory=lambda env: (lambda x: env["L"] if isinstance(x, ast.Call) and A.call_name(x) == "len" else None),
-                 body=[s for s in body if isinstance(s, ast.If)][:1])
+    # _num_from_str evaluated on texts: accepted exactly when 1-4 decimal digits (value = the BCD reading), every other text is
+    # rejected by a raise statement of an SPSDK error (a builtin ValueError escaping from int() is not a rejection by contract)
+    chk_fn = ctx.own(SBMISC, "BcdVersion3", "_check_number")
+    texts = ["", "0", "7", "10", "999", "9999", "0000", "12345", "00000", "a", "1a", "g", "0x1", "1_0", "+1", "-1", " 1", "1 ", "1.", "\u0661", "F", "99f9"]
+    probs = []
+    for text in texts:
+        try:
+            out = ordereval.Evaluator({"text": text}, ctx.fold_sym(nf), opaque_return=False,
+                                      call_value=ctx.model_calls(classes={"BcdVersion3": ctx.cls(SBMISC, "BcdVersion3")}, module=nf.module)).run(A.body_of(nf.node))
+        except ordereval.Unsupported as ex:
+            raise AnalysisError(f"C20.bcd.num_from_str: left the fragment: {ex}")
+        valid = 1 <= len(text) <= 4 and all(ch in "0123456789" for ch in text)
+        if valid:
+            good = out.kind == "return" and out.value == int(text, 16)
+        else:
+            exc = out.node.exc if out.kind == "raise" and isinstance(out.node, ast.Raise) else None
+            name = norm(exc.func if isinstance(exc, ast.Call) else exc) if exc is not None else ""
+            good = out.kind == "raise" and out.value is None and name.startswith("SPSDK")
+        if not good:
+            probs.append(f"{text!r}: {out.kind} {out.value!r}")
+    ctx.chk.exhaustive_rules.add("C20.bcd.text-grammar")
+    ctx.chk.decide(not probs, "C20.bcd.text-grammar", nf.qual, f"a component is accepted exactly when it is 1-4 decimal digits, everything else is rejected with an SPSDK error ({len(texts)} texts)",
+                   "; ".join(probs[:4]), "1-4 decimal digits", A.loc(SBMISC, nf.node))
     fs = ctx.own(SBMISC, "BcdVersion3", "from_str")
     # from_str evaluated on texts with 1..4 components: exactly three are accepted, and component i (converted by _num_from_str)
     # becomes constructor argument i
